@@ -35,6 +35,7 @@ def install(world, clock, patch_cache_clocks=False):
     setg(mako.template, "os", osf)
     setg(mako.util, "os", osf)
     setg(mako.util, "open", world.open)
+    setg(mako.template, "open", world.open)
     setg(mako.template, "tempfile", TempfileFacade(world, _real_tempfile))
     setg(mako.template, "shutil", ShutilFacade(world, _real_shutil))
 
